@@ -302,7 +302,12 @@ impl<'a> Ctx<'a> {
         let n = self.r.range(1, 3);
         for i in 0..n {
             if self.r.chance(0.35) {
-                parts.push(TextPart::Lit(format!("t{}", self.r.below(20))));
+                if self.prop == Prop::C14 && self.r.chance(0.3) {
+                    // entity spellings and brace look-alikes (source text, decoded by the parser)
+                    parts.push(TextPart::Lit((*self.r.pick(&["&lt;", "&amp;", "a &gt; b", "&#123;&#123; x }}", "&#x7b;", " { ", "} ", "&quot;q&quot;", "&nbsp;", "&#39;", "x&amp;amp;y", "\n  ", "\t"])).to_string()));
+                } else {
+                    parts.push(TextPart::Lit(format!("t{}", self.r.below(20))));
+                }
             }
             parts.push(TextPart::Bind(self.top_expr()));
             if i + 1 < n {
@@ -418,6 +423,18 @@ impl<'a> Ctx<'a> {
                 break;
             }
             self.budget -= 1;
+            if self.prop == Prop::C14 && self.r.chance(0.06) {
+                // text nodes that only a comment keeps apart
+                let first = (*self.r.pick(&["a{", "{", "x }", "b&#123;", "{{", "t"])).to_string();
+                out.push(Node::Text(vec![TextPart::Lit(first)]));
+                out.push(Node::Comment(" sep ".into()));
+                if self.r.chance(0.5) {
+                    out.push(Node::Text(vec![TextPart::Lit((*self.r.pick(&["{ y }}", "{z", "}} w", "u"])).to_string())]));
+                } else {
+                    out.push(Node::Text(self.text_parts()));
+                }
+                continue;
+            }
             out.push(self.node(depth));
         }
         out
@@ -928,6 +945,44 @@ pub fn generate(seed: u64, prop: Prop) -> World {
     } else {
         vec![]
     };
+    if prop == Prop::C14 {
+        let mut rm = Rng::fork(seed, "rt.mutate");
+        if rm.chance(0.33) {
+            let src = files[0].to_wxml();
+            let mut chars: Vec<char> = src.chars().collect();
+            let n_mut = rm.range(1, 2);
+            for _ in 0..n_mut {
+                if chars.is_empty() {
+                    break;
+                }
+                let at = rm.below(chars.len());
+                match rm.below(6) {
+                    0 => {
+                        chars.remove(at);
+                    }
+                    1 => {
+                        let c = chars[at];
+                        chars.insert(at, c);
+                    }
+                    2 | 3 => {
+                        let ins = *rm.pick(&["<", ">", "{{", "}}", "\"", "'", "&", "</view>", "<view>", " wx:if", "/", "<!--", "-->", "=", " "]);
+                        for (k, c) in ins.chars().enumerate() {
+                            chars.insert(at + k, c);
+                        }
+                    }
+                    4 => {
+                        chars.truncate(at);
+                    }
+                    _ => {
+                        if at + 1 < chars.len() {
+                            chars.swap(at, at + 1);
+                        }
+                    }
+                }
+            }
+            files[0].raw = Some(chars.into_iter().collect());
+        }
+    }
     World {
         files,
         scripts,
